@@ -1094,12 +1094,14 @@ class Vector():
 	def max(self):
 		if self.ndims() == 2:
 			return self.copy((c.max() for c in self.cols()), name=None).T
-		return max(self)
+		# Exclude None values from max
+		return max(v for v in self._underlying if v is not None)
 
 	def min(self):
 		if self.ndims() == 2:
 			return self.copy((c.min() for c in self.cols()), name=None).T
-		return min(self)
+		# Exclude None values from min
+		return min(v for v in self._underlying if v is not None)
 
 	def sum(self):
 		if self.ndims() == 2:
